@@ -13,7 +13,7 @@ RULE = ("valid texts of the schema family mutated at character, token and line l
         "ZConfig configuration-error family escapes (exceptions raised by the zcvdt datatype functions themselves are "
         "excluded). non-trivial = mutated or overridden or including; distinct by (schema, text, overrides)")
 
-META = list("<>/%#()$=\\ \t{}-:.*+") + ["</", "/>", "${", "$(", "%include ", "%define ", "%import ", "\x0c", " ", " "]
+META = list("<>/%#()$=\\ \t{}-:.*+") + ["</", "/>", "${", "$(", "%include ", "%define ", "%import ", "%Include ", "%DEFINE ", "%Import ", "% include ", "%\tdefine ", "\x0c", " ", " "]
 
 
 def mutate_lines(rng, lines):
@@ -22,7 +22,9 @@ def mutate_lines(rng, lines):
         return [rng.choice(META)]
     k = rng.random()
     i = rng.randrange(len(lines))
-    if k < 0.15:
+    if k < 0.06:
+        lines.insert(i, rng.choice(["%Include x.conf", "%DEFINE v 1", "%Import some.pkg", "% define a b", "%define", "%Define", "%INCLUDE", "%import\tp q"]))
+    elif k < 0.15:
         del lines[i]
     elif k < 0.3:
         lines.insert(i, lines[i])
